@@ -4,6 +4,7 @@
 //! Fixed results are printed as hex, boxed results as `<nlimbs>:<hex>`.
 use crate::util::*;
 use crypto_bigint::modular::{BoxedMontyForm, BoxedMontyParams, MontyForm, MontyParams};
+use crypto_bigint::verif_hooks as hooks;
 use crypto_bigint::{AddMod, BoxedUint, MulMod, NegMod, NonZero, Odd, SubMod, Uint};
 
 /// fixed widths of the property: 1,2,3,4,6,8,12,16 limbs
@@ -133,13 +134,70 @@ fn boxed_op(op: &str, n: usize, a: &[&str]) -> Option<String> {
     }))
 }
 
+// ---- hook ops: crate-internal functions reached through `crypto_bigint::verif_hooks`
+//   c07.hook.sub_mod_with_carry n a carry b p      Uint::sub_mod_with_carry            -> hex
+//   c07.hook.mac_by_limb n a b c carry             uint::mul_mod::mac_by_limb          -> hex carry
+//   c07.hook.div_by_2 n a p                        modular::div_by_2::div_by_2 (p odd) -> hex
+//   c07.hook.bsub_mod_with_carry / bmac_by_limb / bdiv_by_2 / bdiv_by_2_assign: the BoxedUint twins -> n:hex …
+fn hook_fixed<const N: usize>(op: &str, a: &[&str]) -> Option<String> {
+    Some(match (op, a) {
+        ("c07.hook.sub_mod_with_carry", [x, c, y, p]) => uhex(&hooks::uint_sub_mod_with_carry(
+            &arg!(uint::<N>(x)),
+            arg!(limb(c)),
+            &arg!(uint::<N>(y)),
+            &arg!(uint::<N>(p)),
+        )),
+        ("c07.hook.mac_by_limb", [x, y, c, carry]) => {
+            let (r, k) =
+                hooks::uint_mac_by_limb(&arg!(uint::<N>(x)), &arg!(uint::<N>(y)), arg!(limb(c)), arg!(limb(carry)));
+            format!("{} {}", uhex(&r), lhex(k))
+        }
+        ("c07.hook.div_by_2", [x, p]) => {
+            let p = arg!(Option::<Odd<Uint<N>>>::from(Odd::new(arg!(uint::<N>(p)))));
+            uhex(&hooks::div_by_2(&arg!(uint::<N>(x)), &p))
+        }
+        _ => return None,
+    })
+}
+
+fn hook_boxed(op: &str, n: usize, a: &[&str]) -> Option<String> {
+    if n == 0 || n > 64 {
+        return Some("unsupported-width".to_string());
+    }
+    let bx = |s: &str| boxed(s, n);
+    Some(match (op, a) {
+        ("c07.hook.bsub_mod_with_carry", [x, c, y, p]) => {
+            bhexlen(&hooks::boxed_sub_assign_mod_with_carry(&arg!(bx(x)), arg!(limb(c)), &arg!(bx(y)), &arg!(bx(p))))
+        }
+        ("c07.hook.bmac_by_limb", [x, y, c, carry]) => {
+            let (r, k) = hooks::boxed_mac_by_limb(&arg!(bx(x)), &arg!(bx(y)), arg!(limb(c)), arg!(limb(carry)));
+            format!("{} {}", bhexlen(&r), lhex(k))
+        }
+        ("c07.hook.bdiv_by_2", [x, p]) => {
+            let p = arg!(Option::<Odd<BoxedUint>>::from(Odd::new(arg!(bx(p)))));
+            bhexlen(&hooks::div_by_2_boxed(&arg!(bx(x)), &p))
+        }
+        ("c07.hook.bdiv_by_2_assign", [x, p]) => {
+            let p = arg!(Option::<Odd<BoxedUint>>::from(Odd::new(arg!(bx(p)))));
+            let mut r = arg!(bx(x));
+            hooks::div_by_2_boxed_assign(&mut r, &p);
+            bhexlen(&r)
+        }
+        _ => return None,
+    })
+}
+
 pub fn dispatch(op: &str, a: &[&str]) -> Option<String> {
     if a.is_empty() {
         return None;
     }
     let n = arg!(dec(a[0]));
     let rest = &a[1..];
-    if op == "c07.u.mul_mod" {
+    if op.starts_with("c07.hook.b") {
+        hook_boxed(op, n, rest)
+    } else if op.starts_with("c07.hook.") {
+        with_w!(n, hook_fixed, op, rest)
+    } else if op == "c07.u.mul_mod" {
         mul_mod_fixed(n, rest)
     } else if op.starts_with("c07.u.") {
         with_w!(n, fixed, op, rest)
